@@ -372,6 +372,9 @@ func Run(c *engine.Ctx) {
 			}
 		}
 	}
+	// every recursive tree on up to 7 (thorough 9) nodes: parent[i] < i for every node i > 0, one edge object per parent.
+	// Levels of several nodes whose members have several children each - shapes no 3- or 4-node graph has.
+	recursiveTrees(c)
 	// the list changes between two extractions (no extraction may be served from state derived earlier)
 	c.Group("extract-after-mutation")
 	{
@@ -493,6 +496,85 @@ func Run(c *engine.Ctx) {
 }
 
 // outcomeClass coarsens an observation into "sizes of the returned node sets".
+func recursiveTrees(c *engine.Ctx) {
+	c.Group("recursive-trees")
+	maxN := 7
+	if c.Thorough() {
+		maxN = 9
+	}
+	c.Bound("recursive-trees", fmt.Sprintf("every parent function p(i) < i on 4..%d nodes (all (n-1)! of them) x targets stored ascending / descending x edge objects stored in parent order / reversed x a back edge from the last node to the root {no, yes} x root set {none, node 0} x every start x depths 1..n+1", maxN))
+	for n := 4; n <= maxN; n++ {
+		ids := make([]string, n)
+		for i := range ids {
+			ids[i] = fmt.Sprintf("t%d", i)
+		}
+		parent := make([]int, n)
+		var rec func(i int)
+		rec = func(i int) {
+			if c.Expired() {
+				return
+			}
+			if i < n {
+				for p := 0; p < i; p++ {
+					parent[i] = p
+					rec(i + 1)
+				}
+				return
+			}
+			for variant := 0; variant < 8; variant++ {
+				desc, rev, back := variant&1 != 0, variant&2 != 0, variant&4 != 0
+				kids := make([][]string, n)
+				for ch := 1; ch < n; ch++ {
+					kids[parent[ch]] = append(kids[parent[ch]], ids[ch])
+				}
+				var edges []gen.EdgeSpec
+				for p := 0; p < n; p++ {
+					if len(kids[p]) == 0 {
+						continue
+					}
+					to := append([]string{}, kids[p]...)
+					if desc {
+						for a, b := 0, len(to)-1; a < b; a, b = a+1, b-1 {
+							to[a], to[b] = to[b], to[a]
+						}
+					}
+					ty := sbom.Edge_contains
+					if p%2 == 1 {
+						ty = sbom.Edge_dependsOn
+					}
+					edges = append(edges, gen.EdgeSpec{From: ids[p], Type: ty, To: to})
+				}
+				if back {
+					edges = append(edges, gen.EdgeSpec{From: ids[n-1], Type: sbom.Edge_other, To: []string{ids[0]}})
+				}
+				if rev {
+					for a, b := 0, len(edges)-1; a < b; a, b = a+1, b-1 {
+						edges[a], edges[b] = edges[b], edges[a]
+					}
+				}
+				for _, roots := range [][]string{nil, {ids[0]}} {
+					for _, st := range ids {
+						spec := gen.ListSpec{Nodes: ids, Edges: edges, Roots: roots}
+						st := st
+						c.Case(func() any { return caseDesc{List: spec, Start: st} }, func(t *engine.T) *engine.Violation {
+							nl := spec.Build()
+							obs, v := runAll(t, nl, st, n+1)
+							if v != nil {
+								return v
+							}
+							t.Observe(obs)
+							t.State(gen.CanonKey(nl) + "@" + st)
+							t.Outcome("tree " + outcomeClass(obs))
+							return nil
+						})
+					}
+				}
+			}
+		}
+		rec(1)
+	}
+}
+
 func outcomeClass(obs string) string {
 	parts := strings.Split(obs, "#")
 	var sb strings.Builder
